@@ -116,7 +116,7 @@ func l(xs ...any) []any {
 	return xs
 }
 
-func hasInt(xs []int, x int) bool {
+func c14HasInt(xs []int, x int) bool {
 	for _, y := range xs {
 		if x == y {
 			return true
@@ -188,7 +188,7 @@ var c14Templates = []c14Tpl{
 	{Name: "prefixItems-items-rest", Schema: o("prefixItems", l(o("type", "boolean")), "items", o("type", "boolean")), Good: l(l(true, false)), Bad: l(l(true, "x"))},
 }
 
-func (t *c14Tpl) inModel(draft int) bool { return !hasInt(t.NoModel, draft) }
+func (t *c14Tpl) inModel(draft int) bool { return !c14HasInt(t.NoModel, draft) }
 
 // the document of a chart whose values hold the tested value under key "k"
 func (t *c14Tpl) doc(d c14Dialect) map[string]any {
@@ -207,13 +207,13 @@ func (t *c14Tpl) doc(d c14Dialect) map[string]any {
 
 // (accepted?, known?) by the drafts, for a good / bad value under the dialect
 func (t *c14Tpl) expect(draft int, good bool) (accept bool, known bool) {
-	if hasInt(t.NoExpect, draft) {
+	if c14HasInt(t.NoExpect, draft) {
 		return false, false
 	}
 	if good {
-		return !hasInt(t.GoodKO, draft), true
+		return !c14HasInt(t.GoodKO, draft), true
 	}
-	return hasInt(t.BadOK, draft), true
+	return c14HasInt(t.BadOK, draft), true
 }
 
 type c14Expect struct {
@@ -633,7 +633,7 @@ func (g *c14DocGen) forTable(m map[string]any, depth int, sections []string) map
 		req = append(req, []string{"must", "x", "enabled"}[g.r.Intn(3)])
 	}
 	if req = uniq(req); len(req) > 0 {
-		s["required"] = toAny(req)
+		s["required"] = c14ToAny(req)
 	}
 	pick := func() string {
 		if len(keys) > 0 && !g.chance(4) {
@@ -684,7 +684,7 @@ func (g *c14DocGen) forTable(m map[string]any, depth int, sections []string) map
 	return s
 }
 
-func toAny(xs []string) []any {
+func c14ToAny(xs []string) []any {
 	out := make([]any, len(xs))
 	for i, x := range xs {
 		out[i] = x
@@ -730,7 +730,7 @@ func c14RandomDoc(r *rand.Rand, m map[string]any, sections []string) *vSchema {
 		root["$schema"] = "http://example.com/my-dialect" // no loader for it: the compile fails
 	}
 	defs, old := map[string]any{}, map[string]any{}
-	for _, k := range sortedAnyKeys(g.defs) {
+	for _, k := range c14SortedKeys(g.defs) {
 		if strings.HasPrefix(k, "old:") {
 			old[strings.TrimPrefix(k, "old:")] = g.defs[k]
 		} else {
@@ -749,7 +749,7 @@ func c14RandomDoc(r *rand.Rand, m map[string]any, sections []string) *vSchema {
 	return &vSchema{IsDoc: true, Doc: normJSON(root)}
 }
 
-func sortedAnyKeys(m map[string]any) []string {
+func c14SortedKeys(m map[string]any) []string {
 	ks := make([]string, 0, len(m))
 	for k := range m {
 		ks = append(ks, k)
